@@ -181,7 +181,7 @@ def classify(t):
     cause = 'near-parallel' if near_par else 'unknown'
     cause_t = 'tilted-frame' if (chain_broken and t['tilted']) else cause
     base = {'call': 'PolarizedRays.update', 'cause': cause, 'lens': t['lens'], 'ray': t['ray'], 'coated': t['coated'],
-            'tilted': t['tilted'], 'spec': t['spec'], 'raw_state': t['raw'], 'violates_property': True}
+            'tilted': t['tilted'], 'layout': t.get('layout'), 'raw_state': t['raw'], 'violates_property': True}
     if not t['coated']:
         if not abs(t['ipol'] - 1.0) <= INT_TOL:
             out.append(dict(base, clause='uncoated-intensity', observed=t['ipol'], expected=1.0))
@@ -220,6 +220,9 @@ def classify(t):
         if not abs(t['iunpol'] - mean) <= INT_TOL * (1 + abs(mean)):
             out.append(dict(base, cause='unknown', clause='unpolarized-mean',
                             pair=[a, b], observed=t['iunpol'], expected=mean))
+    for w in out:                      # the prescription last: the head of the witness says what failed
+        w['Hx'], w['Hy'] = t.get('Hx'), t.get('Hy')
+        w['spec'] = t['spec']
     return out
 
 
